@@ -211,6 +211,8 @@ class Executor:
         ty = self.resolve(ty)
         if ty == ('float', 'f80'):
             return 10
+        if ty[0] == 'int':
+            return (ty[1] + 7) // 8
         return self.sizeof(ty)
 
     def alignof(self, ty):
